@@ -65,7 +65,13 @@ def r9_dataset_level(run, tree):
     iof.check_dataset_load_history(run, tree)
 
 
-RULES = [r_shared_c15_r5, r1, r2, r3, r4, r6_preselection_history, r7_conditions, r_memo, r9_dataset_level]
+def r10_derived(run, tree):
+    run.rule("C15.R10", "the derived-variable hook runs on the whole dataset after EVERY load: it leaves every loaded variable untouched (no arithmetic in place in a loaded buffer), "
+             "so groups kept from earlier calls do not drift from load to load (shared with C01.R11)", "D7 fold of config/defaults.py::additional_variables over input sets", "", floor=4)
+    iof.check_derived_variables(run, tree)
+
+
+RULES = [r_shared_c15_r5, r1, r2, r3, r4, r6_preselection_history, r7_conditions, r_memo, r9_dataset_level, r10_derived]
 
 
 def t_load_space(run, tree):
